@@ -1,6 +1,6 @@
 CONSTANTS MaxView = 1 ByzBudget = 2 Blocks <- cBlocks Hdr <- cHdr Dev = {} Ablate = {}
 INIT Init
 NEXT Next
-INVARIANTS Agreement ExternalValidity NoRejectedCommitted NoEquivocation
+INVARIANTS Agreement LockedNodeLevel ExternalValidity NoRejectedCommitted NoEquivocation
 VIEW View
 CHECK_DEADLOCK FALSE
